@@ -65,6 +65,8 @@ const basePrelude = `
   (ite (or ((_ is nan) a) ((_ is nan) b)) nan (ite (xle b a) a b)))
 (declare-fun conv_undef (XR) Int)
 (define-fun xtrunc ((a XR)) Int (ite ((_ is fin) a) (rtrunc (val a)) (conv_undef a)))
+(declare-fun idx (Int Int) Int)
+(assert (forall ((o Int) (i Int)) (! (= (idx o i) (+ o i)) :pattern ((idx o i)))))
 ; --- end of prelude ---
 `
 
